@@ -2,7 +2,7 @@
 # usage: refactor_matrix.sh <tree> ... : run every check (quick) against behaviour preserving refactorings; any VIOLATION / ANALYSIS-ERROR is a false alarm
 cd /verif
 for t in "$@"; do
-  for c in 01 02 03 04 05 06 07 08 09 10 11 12 13 15 16 17 18 19 20; do
+  for c in 01 02 03 04 05 06 07 08 09 10 11 12 13 14 15 16 17 18 19 20; do
     echo "$t C$c"
   done
 done | xargs -P 16 -L 1 bash -c 'out=$(ODMLSA_REPO=$0 ODMLSA_NOEVIDENCE=1 python3 -m odmlsa.check $1 --tier quick 2>&1); rc=$?; echo "== $0 $1 rc=$rc"; if [ $rc -ne 0 ]; then echo "$out" | grep -v KNOWN-FINDING | grep -E "VIOLATION|ANALYSIS-ERROR|FAIL|violation" | head -12; fi'
